@@ -38,7 +38,7 @@ def prebuild(chk):
     return ok
 
 
-def race_pass(chk, m, tier):
+def race_pass(chk, m, tier, cold_objects=()):
     binary = chk.build(variant="race", tags="verif", race=True)
     if not binary:
         m["internal"].append("-race build failed")
@@ -60,15 +60,30 @@ def race_pass(chk, m, tier):
                            stdout=subprocess.PIPE, stderr=subprocess.PIPE, text=True, cwd=chk.VERIF)
         return procs, out, p.stderr
 
+    def cold(name):
+        out = os.path.join(tmp, "cold_%s.json" % re.sub(r"[^A-Za-z0-9]", "_", name))
+        if os.path.exists(out):
+            os.remove(out)
+        env = dict(chk.GOENV)
+        env["GOMAXPROCS"] = "16"
+        env["GORACE"] = "halt_on_error=0"
+        p = subprocess.run([binary, "run", "C10race", "-args", "cold=" + name, "-out", out], env=env,
+                           stdout=subprocess.PIPE, stderr=subprocess.PIPE, text=True, cwd=chk.VERIF)
+        return "16 cold " + name, out, p.stderr
+
     with ThreadPoolExecutor(max_workers=3) as ex:
         results = list(ex.map(one, ("1", "2", "16")))
+    with ThreadPoolExecutor(max_workers=4) as ex:
+        results += list(ex.map(cold, cold_objects))
+    m["counters"]["race_pass_cold_start_processes"] = len(cold_objects)
     for procs, out, stderr in results:
         races = re.findall(r"WARNING: DATA RACE\n(.*?)(?:\n==================|\Z)", stderr, flags=re.S)
         if os.path.exists(out):
             part = json.load(open(out))
             for k, v in (part.get("violations") or {}).items():
                 m["violations"][k] = v
-            m["counters"]["race_pass_calls_gomaxprocs_" + procs] = (part.get("counters") or {}).get("states", 0)
+            ck = "race_pass_calls_gomaxprocs_" + procs.split()[0] + ("_cold" if " cold " in procs else "")
+            m["counters"][ck] = m["counters"].get(ck, 0) + (part.get("counters") or {}).get("states", 0)
         elif not races:
             m["internal"].append("race pass (GOMAXPROCS=%s) failed: %s" % (procs, stderr[-400:]))
         for r in races:
@@ -83,6 +98,81 @@ def race_pass(chk, m, tier):
             m["violations"][k]["count"] += 1
     m["counters"]["race_reports"] = total_races
     m["notes"].append("free-running -race pass (detector, not an enumeration): GOMAXPROCS 1, 2, 16; %d race reports" % total_races)
+
+
+def cold_pass(chk, binary, m, tier):
+    """Cold-start exploration: every execution in its own fresh process (lazily initialised state is cold),
+    base schedule + every schedule with exactly one preemption, for scenarios over a greedy diverse object set."""
+    from concurrent.futures import ThreadPoolExecutor
+    tmp = os.path.join(chk.BUILD, "partials", "C10cold")
+    os.makedirs(tmp, exist_ok=True)
+    env = dict(chk.GOENV)
+    env["GOMAXPROCS"] = "2"
+
+    def child(tag, args):
+        out = os.path.join(tmp, "%s.json" % tag)
+        if os.path.exists(out):
+            os.remove(out)
+        p = subprocess.run([binary, "run", "C10cold", "-args", args, "-out", out], env=env,
+                           stdout=subprocess.PIPE, stderr=subprocess.STDOUT, text=True, cwd=chk.VERIF)
+        if p.returncode != 0 or not os.path.exists(out):
+            return None, p.stdout[-300:]
+        d = json.load(open(out))
+        os.remove(out)
+        return d, ""
+
+    plan, err = child("plan", "mode=plan")
+    names = []
+    for n in (plan or {}).get("notes") or []:
+        if n.startswith("plan:"):
+            names = n[5:].split(";")
+    if len(names) < 4:
+        m["internal"].append("cold-start plan failed: %s" % err)
+        return []
+    nsame = 10 if tier == "quick" else 24
+    pairs = [(i, i) for i in range(min(nsame, len(names)))] + [(0, 1), (1, 0), (2, 3), (3, 2)]
+    if tier != "quick":
+        pairs += [(0, 2), (2, 0), (0, 3), (3, 0), (1, 2), (2, 1), (1, 3), (3, 1)]
+    executions = points_total = 0
+    for si, (a, b) in enumerate(pairs):
+        objs = names[a] + ";" + names[b]
+        base, err = child("s%d_base" % si, "mode=exec,objs=%s" % objs)
+        if base is None:
+            m["internal"].append("cold-start base execution failed: %s" % err)
+            continue
+        pts = []
+        for n in base.get("notes") or []:
+            if n.startswith("points:"):
+                pts = [x for x in n[7:].split(",") if x]
+        work = []
+        for i, pt in enumerate(pts):
+            nen, still = int(pt[:-1]), pt[-1] == "s"
+            if still:
+                for alt in range(1, nen):
+                    work.append((i, alt))
+        results = [base]
+        with ThreadPoolExecutor(max_workers=16) as ex:
+            for d, err in ex.map(lambda w: child("s%d_%d_%d" % (si, w[0], w[1]), "mode=exec,objs=%s,pre=%d:%d" % (objs, w[0], w[1])), work):
+                if d is None:
+                    m["internal"].append("cold-start execution failed: %s" % err)
+                else:
+                    results.append(d)
+        for d in results:
+            executions += 1
+            points_total += int((d.get("counters") or {}).get("transitions", 0))
+            m["internal"] += d.get("internal") or []
+            for k, v in (d.get("violations") or {}).items():
+                if k in m["violations"]:
+                    m["violations"][k]["count"] += v["count"]
+                else:
+                    m["violations"][k] = v
+        m["tables"].setdefault("scenario_executions", {})["cold start: lint %s ∥ lint %s [fresh process per execution, ≤1 preemption, %d points]" % (names[a], names[b], len(pts))] = len(results)
+    m["counters"]["cold_start_executions"] = executions
+    m["counters"]["states"] = m["counters"].get("states", 0) + executions
+    m["counters"]["validated"] = m["counters"].get("validated", 0) + executions
+    m["counters"]["transitions"] = m["counters"].get("transitions", 0) + points_total
+    m["notes"].append("cold-start exploration: %d scenarios, %d executions, each in a fresh process (base schedule + every single preemption)" % (len(pairs), executions))
+    return names
 
 
 def run(chk, prop, spec, tier, seed, replay):
@@ -101,7 +191,8 @@ def run(chk, prop, spec, tier, seed, replay):
         return 0
 
     def post(m, partials):
-        race_pass(chk, m, tier)
+        names = cold_pass(chk, binary, m, tier) or []
+        race_pass(chk, m, tier, cold_objects=names)
 
     extra = {"mutable_global_census": census.get("mutable_globals"), "yields_inserted": census.get("yields_inserted"),
              "sync_imports_redirected": census.get("sync_imports_redirected")}
